@@ -866,4 +866,356 @@ theorem callsOkF_of_B {cfg : Cfg} {r : Record} (h : callsOkB cfg r = true) : Cal
       Bool.not_eq_true', beq_iff_eq] at this
     exact this.2
 
+/-! ## 5. no `PloidyError` on diploid data: lifting a successful `readChrom` to `readChromP` -/
+
+/-- a fully called genotype is diploid -/
+def Dip (g : Option Gt) : Prop := ∀ g', g = some g' → g'.all Option.isSome = true → g'.length = 2
+
+/-- `pl` is still unknown or 2 -/
+def Pl2 (pl : Option Nat) : Prop := pl = none ∨ pl = some 2
+
+theorem ploidyPhase_two {pl : Option Nat} (hpl : Pl2 pl) {p : Option Phase} (h : ∀ ph, p = some ph → ph.alleles.length = 2) :
+    ∃ pl', Pl2 pl' ∧ ploidyPhase pl p = .ok pl' := by
+  cases p with
+  | none => exact ⟨pl, hpl, rfl⟩
+  | some ph =>
+    have h2 := h ph rfl
+    unfold ploidyPhase
+    simp only [h2, maxPloidy]
+    cases hb : ph.block.isNone
+    · rcases hpl with rfl | rfl
+      · exact ⟨some 2, Or.inr rfl, by simp⟩
+      · exact ⟨some 2, Or.inr rfl, by simp⟩
+    · exact ⟨pl, hpl, by simp⟩
+
+theorem ploidyGeno_two {pl : Option Nat} (hpl : Pl2 pl) {g : Option Gt} (h : Dip g) :
+    ∃ pl', Pl2 pl' ∧ ploidyGeno pl g = .ok pl' := by
+  cases g with
+  | none => exact ⟨pl, hpl, rfl⟩
+  | some g' =>
+    unfold ploidyGeno
+    cases hall : g'.all Option.isSome
+    · exact ⟨pl, hpl, by simp only [hall, Bool.not_false, if_true]⟩
+    · have h2 := h g' rfl hall
+      simp only [hall, h2, maxPloidy, Bool.not_true, Bool.false_eq_true, if_false]
+      rcases hpl with rfl | rfl
+      · exact ⟨some 2, Or.inr rfl, by simp⟩
+      · exact ⟨some 2, Or.inr rfl, by simp⟩
+
+theorem ploidyGenos_two : ∀ (calls : List (String × Call)) {pl : Option Nat}, Pl2 pl → (∀ nc ∈ calls, Dip nc.2.gt) →
+    ∃ pl', Pl2 pl' ∧ ploidyGenos pl calls = .ok pl'
+  | [], pl, hpl, _ => ⟨pl, hpl, rfl⟩
+  | (n, c) :: r, pl, hpl, h => by
+    obtain ⟨pl1, h1, e1⟩ := ploidyGeno_two hpl (h (n, c) List.mem_cons_self)
+    obtain ⟨pl2, h2, e2⟩ := ploidyGenos_two r h1 (fun nc hnc => h nc (List.mem_cons_of_mem _ hnc))
+    exact ⟨pl2, h2, by simp only [ploidyGenos, e1, e2, bind, Except.bind]⟩
+
+/-- every phase either extractor finds in the call has two alleles -/
+def PhaseLen2 (fmt : List String) (c : Call) : Prop :=
+  ∀ p, (extractHP c = .ok (some p) ∨ extractGTPS fmt c = some p) → p.alleles.length = 2
+
+theorem readCallP_of_readCall {st st' : Option Enc} {fmt : List String} {c : Call} {ph : Option Phase}
+    (h : readCall st fmt c = .ok (st', ph)) (hlen : PhaseLen2 fmt c) {pl : Option Nat} (hpl : Pl2 pl) :
+    ∃ pl', Pl2 pl' ∧ readCallP st pl fmt c = .ok (st', pl', ph) := by
+  simp only [readCall, callPhases, bind, Except.bind, pure, Except.pure] at h
+  cases hhp : extractHP c with
+  | error e => rw [hhp] at h; cases h
+  | ok hp =>
+    rw [hhp] at h
+    simp only at h
+    cases hd1 : detect st .HP hp with
+    | error e => rw [hd1] at h; cases h
+    | ok st1 =>
+      rw [hd1] at h
+      simp only at h
+      cases hd2 : detect st1 .GTPS (extractGTPS fmt c) with
+      | error e => rw [hd2] at h; cases h
+      | ok st2 =>
+        rw [hd2] at h
+        simp only [Except.ok.injEq, Prod.mk.injEq] at h
+        obtain ⟨rfl, rfl⟩ := h
+        obtain ⟨pl1, h1, e1⟩ := ploidyPhase_two hpl (p := hp) (fun p hp' => hlen p (Or.inl (by rw [hhp, hp'])))
+        obtain ⟨pl2, h2, e2⟩ := ploidyPhase_two h1 (p := extractGTPS fmt c) (fun p hp' => hlen p (Or.inr hp'))
+        exact ⟨pl2, h2, by simp only [readCallP, hhp, hd1, e1, hd2, e2, bind, Except.bind, pure, Except.pure]; rfl⟩
+
+theorem readCallsP_of_readCalls : ∀ (calls : List (String × Call)) {st st' : Option Enc} {fmt : List String}
+    {ps : List (Option Phase)}, readCalls st fmt calls = .ok (st', ps) → (∀ nc ∈ calls, PhaseLen2 fmt nc.2) →
+    ∀ {pl : Option Nat}, Pl2 pl → ∃ pl', Pl2 pl' ∧ readCallsP st pl fmt calls = .ok (st', pl', ps)
+  | [], st, st', fmt, ps, h, _, pl, hpl => by
+    simp only [readCalls, Except.ok.injEq, Prod.mk.injEq] at h
+    obtain ⟨rfl, rfl⟩ := h
+    exact ⟨pl, hpl, rfl⟩
+  | (n, c) :: r, st, st', fmt, ps, h, hl, pl, hpl => by
+    simp only [readCalls, bind, Except.bind, pure, Except.pure] at h
+    cases h1 : readCall st fmt c with
+    | error e => rw [h1] at h; cases h
+    | ok v1 =>
+      obtain ⟨st1, p1⟩ := v1
+      rw [h1] at h
+      simp only at h
+      cases h2 : readCalls st1 fmt r with
+      | error e => rw [h2] at h; cases h
+      | ok v2 =>
+        obtain ⟨st2, ps2⟩ := v2
+        rw [h2] at h
+        simp only [Except.ok.injEq, Prod.mk.injEq] at h
+        obtain ⟨rfl, rfl⟩ := h
+        obtain ⟨pl1, hp1, e1⟩ := readCallP_of_readCall h1 (hl (n, c) List.mem_cons_self) hpl
+        obtain ⟨pl2, hp2, e2⟩ := readCallsP_of_readCalls r h2 (fun nc hnc => hl nc (List.mem_cons_of_mem _ hnc)) hp1
+        exact ⟨pl2, hp2, by simp only [readCallsP, e1, e2, bind, Except.bind, pure, Except.pure]⟩
+
+/-- diploid data never makes the reader raise `PloidyError`: a successful ploidy-free read lifts -/
+theorem readChromP_of_readChrom (os : Bool) : ∀ (recs : List Record) {st st' : Option Enc} {prev : Option Nat} {rows : List Row},
+    readChrom os st prev recs = .ok (st', rows) →
+    (∀ r ∈ recs, ∀ nc ∈ r.calls, Dip nc.2.gt ∧ PhaseLen2 r.format nc.2) →
+    ∀ {pl : Option Nat}, Pl2 pl → ∃ pl', Pl2 pl' ∧ readChromP os st pl prev recs = .ok (st', pl', rows)
+  | [], st, st', prev, rows, h, _, pl, hpl => by
+    simp only [readChrom, Except.ok.injEq, Prod.mk.injEq] at h
+    obtain ⟨rfl, rfl⟩ := h
+    exact ⟨pl, hpl, rfl⟩
+  | r :: rs, st, st', prev, rows, h, hd, pl, hpl => by
+    have hd' : ∀ r' ∈ rs, ∀ nc ∈ r'.calls, Dip nc.2.gt ∧ PhaseLen2 r'.format nc.2 :=
+      fun r' h' => hd r' (List.mem_cons_of_mem _ h')
+    rw [readChrom_cons] at h
+    rw [readChromP_cons]
+    by_cases c1 : (r.alts.isEmpty || decide (r.alts.length > 1)) = true
+    · rw [if_pos c1] at h ⊢; exact readChromP_of_readChrom os rs h hd' hpl
+    · rw [if_neg c1] at h ⊢
+      by_cases c2 : (os && !(r.ref.length == 1 && r.alts.all (·.length == 1))) = true
+      · rw [if_pos c2] at h ⊢; exact readChromP_of_readChrom os rs h hd' hpl
+      · rw [if_neg c2] at h ⊢
+        by_cases c3 : unsortedB prev r.pos = true
+        · rw [if_pos c3] at h; cases h
+        · rw [if_neg c3] at h ⊢
+          by_cases c4 : (prev == some r.pos) = true
+          · rw [if_pos c4] at h ⊢; exact readChromP_of_readChrom os rs h hd' hpl
+          · rw [if_neg c4] at h ⊢
+            simp only [bind, Except.bind, pure, Except.pure] at h ⊢
+            cases h1 : readCalls st r.format r.calls with
+            | error e => rw [h1] at h; cases h
+            | ok v1 =>
+              obtain ⟨st1, ps⟩ := v1
+              rw [h1] at h
+              simp only at h
+              cases h2 : readChrom os st1 (some r.pos) rs with
+              | error e => rw [h2] at h; cases h
+              | ok v2 =>
+                obtain ⟨st2, rows'⟩ := v2
+                rw [h2] at h
+                simp only [Except.ok.injEq, Prod.mk.injEq] at h
+                obtain ⟨rfl, rfl⟩ := h
+                have hr := hd r List.mem_cons_self
+                obtain ⟨pl1, hp1, e1⟩ := readCallsP_of_readCalls r.calls h1 (fun nc hnc => (hr nc hnc).2) hpl
+                obtain ⟨pl2, hp2, e2⟩ := ploidyGenos_two r.calls hp1 (fun nc hnc => (hr nc hnc).1)
+                obtain ⟨pl3, hp3, e3⟩ := readChromP_of_readChrom os rs h2 hd' hp2
+                exact ⟨pl3, hp3, by simp only [e1, e2, e3]⟩
+
+theorem sortGt_length {g : Gt} (h : g.all Option.isSome = true) : (sortGt g).length = g.length := by
+  unfold sortGt
+  rw [List.length_map, (sortNat_perm _).length_eq]
+  have := congrArg List.length (map_some_filterMap_id h)
+  simpa using this
+
+theorem unphaseGt_dip {c : Call} (h : Dip c.gt) : Dip (unphaseGt c).gt := by
+  unfold unphaseGt
+  cases hg : c.gt with
+  | none => simp only; rw [hg]; intro g' e; cases e
+  | some g =>
+    simp only
+    split
+    · rename_i hall
+      intro g' e _
+      cases e
+      rw [sortGt_length hall]
+      exact h g hg hall
+    · intro g' e hall'
+      cases e
+      exact h g hg hall'
+
+theorem changeStep_dip (cfg : Cfg) (t : Target) (r : Record) (c : Call) (h : Dip c.gt) :
+    Dip (changeStep cfg t r c).1.gt := by
+  unfold changeStep
+  split
+  · rename_i p hp
+    split
+    · intro g' e _
+      cases e
+      have hl := lookupPhase_length hp
+      unfold changedGt
+      split <;> simp [(sortNat_perm p).length_eq, hl]
+    · exact h
+  · exact h
+
+theorem finalCall_dip (cfg : Cfg) (hr : cfg.repaired = true) (prev : Option Nat) (r : Record) (n : String) (c : Call)
+    (h : Dip c.gt) : Dip (finalCall cfg prev r n c).gt := by
+  unfold finalCall
+  split
+  · rename_i t hft
+    have h0 : Dip (clearPhasing cfg r.format c).gt := by
+      rw [cleared_gt cfg hr]; exact unphaseGt_dip h
+    split
+    · rcases updateCall_gt cfg t r (clearPhasing cfg r.format c) with e | ⟨p, hp, e⟩
+      · rw [e]; exact changeStep_dip cfg t r _ h0
+      · rw [e]
+        intro g' e' _
+        cases e'
+        simp [lookupPhase_length hp]
+    · exact h0
+  · exact h
+
+theorem written_len {t : Target} {pos : Nat} {p : Phase} (h : written false t pos = some p) : p.alleles.length = 2 := by
+  unfold written at h
+  split at h
+  · rename_i comp q hc hq
+    split at h
+    · simp only [Option.some.injEq] at h
+      subst h
+      simp [lookupPhase_length hq]
+    · cases h
+  · cases h
+
+theorem finalCall_phaseLen2 (cfg : Cfg) (hr : cfg.repaired = true) (hm : cfg.mav = false) (prev : Option Nat) (r : Record)
+    (n : String) (c : Call) (hwf : WfCall r.format c)
+    (hoth : findTarget cfg n = none → c.phased = false ∧ c.get "HP" = .missing) :
+    PhaseLen2 (writeRecord cfg prev r).record.format (finalCall cfg prev r n c) := by
+  intro p hp
+  cases hft : findTarget cfg n with
+  | none =>
+    obtain ⟨h1, h2⟩ := hoth hft
+    have hfin : finalCall cfg prev r n c = c := by simp only [finalCall, hft]
+    rw [hfin] at hp
+    rcases hp with hp | hp
+    · rw [extractHP_missing c h2] at hp; cases hp
+    · rw [extractGTPS_unphased _ c h1] at hp; cases hp
+  | some t =>
+    have hd := decode_written_lemma cfg hr hm prev r n t hft c hwf
+    unfold callPhases at hd
+    cases hhp : extractHP (finalCall cfg prev r n c) with
+    | error e => rw [hhp] at hd; cases hd
+    | ok a =>
+      rw [hhp] at hd
+      simp only [Except.ok.injEq, Prod.mk.injEq] at hd
+      obtain ⟨ha, hb⟩ := hd
+      rcases hp with hp | hp
+      · rw [hhp] at hp
+        simp only [Except.ok.injEq] at hp
+        rw [hp] at ha
+        split at ha
+        · exact written_len ha.symm
+        · cases ha
+      · rw [hp] at hb
+        split at hb
+        · exact written_len hb.symm
+        · cases hb
+
+/-- the expected content of the table read back from a written chromosome -/
+def expRows (cfg : Cfg) (rs : List Record) : List (Nat × List (Option Phase)) :=
+  (accepted cfg.onlySnvs none rs).map (fun r => (r.pos, r.calls.map (fun nc => expPhaseF cfg r.pos nc.1)))
+
+theorem readChromP_writeChrom (cfg : Cfg) (hr : cfg.repaired = true) (hm : cfg.mav = false) (rs : List Record)
+    (hok : ∀ r ∈ rs, CallsOkF cfg r) (hs : rs.Pairwise (fun a b => a.pos ≤ b.pos))
+    (hdip : ∀ r ∈ rs, ∀ nc ∈ r.calls, Dip nc.2.gt) {pl : Option Nat} (hpl : Pl2 pl) :
+    ∃ st' pl' rows, Pl2 pl' ∧
+      readChromP cfg.onlySnvs none pl none (outRecords (writeChrom cfg none rs)) = .ok (st', pl', rows) ∧
+      rows.map rowPhasesF = expRows cfg rs := by
+  obtain ⟨st', rows, _, h1, h2⟩ :=
+    readChrom_writeChrom_general cfg hr hm rs none none none (Or.inl rfl) hok hs
+      (fun p hp => by cases hp) (fun p hp => by cases hp) (fun p hp => by cases hp)
+  have hfacts : ∀ r' ∈ outRecords (writeChrom cfg none rs), ∀ nc' ∈ r'.calls, Dip nc'.2.gt ∧ PhaseLen2 r'.format nc'.2 := by
+    intro r' hr' nc' hnc'
+    unfold outRecords at hr'
+    obtain ⟨o, ho, rfl⟩ := List.mem_map.mp hr'
+    obtain ⟨prev', r, hrmem, rfl⟩ := mem_writeChrom cfg rs none o ho
+    rw [writeRecord_calls] at hnc'
+    obtain ⟨nc, hnc, rfl⟩ := List.mem_map.mp hnc'
+    obtain ⟨hwf, _, hoth⟩ := hok r hrmem
+    exact ⟨finalCall_dip cfg hr prev' r nc.1 nc.2 (hdip r hrmem nc hnc),
+      finalCall_phaseLen2 cfg hr hm prev' r nc.1 nc.2 (hwf nc hnc) (hoth nc hnc)⟩
+  obtain ⟨pl', hpl', h3⟩ := readChromP_of_readChrom cfg.onlySnvs _ h1 hfacts hpl
+  exact ⟨st', pl', rows, hpl', h3, h2⟩
+
+/-- what one group of `writeFile` has to satisfy for the read-back theorem -/
+structure GroupOk (os : Bool) (g : String × Cfg × List Record) : Prop where
+  mav : g.2.1.mav = false
+  snvs : g.2.1.onlySnvs = os
+  calls : ∀ r ∈ g.2.2, CallsOkF g.2.1 r
+  sorted : g.2.2.Pairwise (fun a b => a.pos ≤ b.pos)
+  dip : ∀ r ∈ g.2.2, ∀ nc ∈ r.calls, Dip nc.2.gt
+
+theorem readFile_writeFile (os : Bool) : ∀ (groups : List (String × Cfg × List Record)), (∀ g ∈ groups, GroupOk os g) →
+    ∀ {pl : Option Nat}, Pl2 pl →
+    ∃ pl' tables, Pl2 pl' ∧ readFile os pl (writeFile groups) = .ok (pl', tables) ∧
+      tables.map (fun t => (t.1, t.2.map rowPhasesF)) = groups.map (fun g => (g.1, expRows { g.2.1 with repaired := true } g.2.2))
+  | [], _, pl, hpl => ⟨pl, [], hpl, rfl, rfl⟩
+  | (chrom, cfg, rs) :: rest, hg, pl, hpl => by
+    obtain ⟨hmav, hsn, hcalls, hsorted, hdip⟩ := hg (chrom, cfg, rs) List.mem_cons_self
+    simp only at hmav hsn hcalls hsorted hdip
+    subst hsn
+    have hcalls' : ∀ r ∈ rs, CallsOkF { cfg with repaired := true } r :=
+      fun r h => ⟨(hcalls r h).wf, (hcalls r h).hdr, (hcalls r h).other⟩
+    obtain ⟨st1, pl1, rows, hp1, e1, e2⟩ :=
+      readChromP_writeChrom { cfg with repaired := true } rfl hmav rs hcalls' hsorted hdip hpl
+    obtain ⟨pl2, tables, hp2, e3, e4⟩ := readFile_writeFile cfg.onlySnvs rest (fun g h => hg g (List.mem_cons_of_mem _ h)) hp1
+    refine ⟨pl2, (chrom, rows) :: tables, hp2, ?_, ?_⟩
+    · have e1' : readChromP cfg.onlySnvs none pl none (outRecords (writeChrom { cfg with repaired := true } none rs)) =
+          .ok (st1, pl1, rows) := e1
+      unfold writeFile at e3 ⊢
+      simp only [List.map_cons, readFile, bind, Except.bind, pure, Except.pure]
+      rw [writeChromX_true, e1']
+      simp only [e3]
+    · simp only [List.map_cons, e2, e4]
+
+/-! ## 6. `PhasedInputReader`: the pseudo reads of a file are `blocksAsReads` of its table -/
+
+theorem pseudoReadsOf_spec (t : PTable) (sample : String) (iv : List VKey) (src sid : Nat) :
+    (pseudoReadsOf t sample iv src sid).map (fun r => (r.sourceId, r.sampleId, r.variants.map (fun v => (v.1, v.2.1)))) =
+      if t.samples.findIdx (· == sample) < t.samples.length then
+        (blocksAsReads 2 (rowsOf t.rows (t.samples.findIdx (· == sample)) iv)).map (fun x => (src, sid, x.2.2))
+      else [] := by
+  unfold pseudoReadsOf
+  by_cases h : t.samples.findIdx (· == sample) < t.samples.length
+  · have h' : ¬ (t.samples.findIdx (· == sample) ≥ t.samples.length) := by omega
+    simp only [h, h', if_true, if_false, List.map_map, sampleRows_fst]
+    apply List.map_congr_left
+    intro x _
+    obtain ⟨b, i, rd⟩ := x
+    simp only [Function.comp, List.map_map, Prod.mk.injEq, true_and]
+    conv => rhs; rw [← List.map_id rd]
+    apply List.map_congr_left
+    intro pa _
+    rfl
+  · have h' : t.samples.findIdx (· == sample) ≥ t.samples.length := by omega
+    simp [h, h']
+
+/-- the source ids handed to read selection as preferred are pairwise different (one per phase-input file that has the
+    chromosome), so that the `(name, source id)` keys of `ReadSet.add` never clash between files -/
+theorem phaseInputReads_ids_nodup (files : List (List PTable)) (nPaths : Nat) (chrom sample : String) (sid : Nat)
+    (iv : List VKey) : (phaseInputReads files nPaths chrom sample sid iv).2.Nodup := by
+  unfold phaseInputReads
+  simp only [List.map_filterMap]
+  have hz : ∀ (l : List (List PTable)) (k : Nat),
+      ((l.zipIdx k).filterMap fun x => ((tableOf x.1 chrom).map fun t =>
+        (pseudoReadsOf t sample iv (nPaths + x.2) sid, nPaths + x.2)).map (·.2)).Pairwise (· ≠ ·) ∧
+      ∀ y ∈ ((l.zipIdx k).filterMap fun x => ((tableOf x.1 chrom).map fun t =>
+        (pseudoReadsOf t sample iv (nPaths + x.2) sid, nPaths + x.2)).map (·.2)), nPaths + k ≤ y := by
+    intro l
+    induction l with
+    | nil => intro k; exact ⟨List.Pairwise.nil, fun y hy => by cases hy⟩
+    | cons a l ih =>
+      intro k
+      obtain ⟨ih1, ih2⟩ := ih (k + 1)
+      simp only [List.zipIdx_cons, List.filterMap_cons]
+      cases hta : tableOf a chrom with
+      | none =>
+        simp only [Option.map_none]
+        exact ⟨ih1, fun y hy => by have := ih2 y hy; omega⟩
+      | some t =>
+        simp only [Option.map_some]
+        refine ⟨List.pairwise_cons.mpr ⟨fun y hy => ?_, ih1⟩, fun y hy => ?_⟩
+        · have := ih2 y hy; omega
+        · rcases List.mem_cons.mp hy with rfl | hy'
+          · exact Nat.le_refl _
+          · have := ih2 y hy'; omega
+  exact (hz files 0).1
+
 end WhVerif.C09
